@@ -242,9 +242,11 @@ def run_table(prop, table, task):
     return acc
 
 
-def table_tasks(table, tier, seed):
+def table_tasks(table, tier, seed, maxp_quick=10 ** 9):
     out = []
     for p in precisions(tier, seed):
+        if tier != 'thorough' and p > maxp_quick:
+            p = 113
         for i, ent in enumerate(table):
             if p > ent.get('maxprec', 10 ** 9) and tier != 'thorough':
                 continue
